@@ -362,6 +362,9 @@ func substParam(v ssa.Value) ssa.Value {
 		if pathSubst != nil {
 			a = pathSubst(par)
 		}
+		if a == nil {
+			a = closureParamBinding(par)
+		}
 		if a == nil && belowScopeRoot(par.Parent()) {
 			if s := curProg.HelperSite(par.Parent()); s != nil {
 				for k, q := range par.Parent().Params {
